@@ -121,6 +121,10 @@ class Pipeline:
                     ev.functions.setdefault(st.name, st)
         ev.exception_bases = exception_bases(src)
         ev.class_table = table
+        from ..finite import memoizable
+        tokens_only = L._composite_table(src, g)
+        ev.memo_functions, ev.pure_ids = memoizable(tokens_only, {'get'}, set(ev.exception_bases), {'subclasses'})
+        self.memoized = len(ev.memo_functions)
         mods = {}
         for ci_ in src.subclasses(src.cls('BaseToken')):
             mods[ci_.module.name] = ci_.module
@@ -131,11 +135,16 @@ class Pipeline:
                     ev.exec_stmt(st, {})
         leaves = [k for k in table if not any(k in e.get('bases', []) for e in table.values())]
 
+        sub_memo = {}
+
         def subclasses_of(cname):
+            if cname in sub_memo:
+                return sub_memo[cname]
             out = [k for k in leaves if cname in table[k]['mro'][1:]]
             if 'UndefinedToken' in table and 'UndefinedToken' not in out:
                 out.append('UndefinedToken')
-            return AV('list', items=tuple(AV('other', val=('class', k)) for k in out))
+            sub_memo[cname] = AV('list', items=tuple(AV('other', val=('class', k)) for k in out))
+            return sub_memo[cname]
         for cname in table:
             if 'subclasses' in {n for k in table[cname]['mro'] if k in table for n in table[k]['methods']}:
                 ev.class_state[(cname, 'subclasses')] = AV('func', val=('native', lambda a, c_=cname: subclasses_of(c_)))
